@@ -20,3 +20,21 @@ package flows
 //@   ensures[cut-claims-order] (result1 == nil && result0 != buildParams) ==> forall(k, 0, old(len(buildParams.Claims)), keepBlk(old(buildParams.Claims[k]).BlockNum, result0.FromBlock, result0.ToBlock) ==> cntC(old(seq(buildParams.Claims)), result0.FromBlock, result0.ToBlock, k) < len(result0.Claims) && result0.Claims[cntC(old(seq(buildParams.Claims)), result0.FromBlock, result0.ToBlock, k)] == old(buildParams.Claims[k]))
 //@   ensures[retry-not-resized] (f.maxL2BlockNumber > 0 && buildParams != nil && old(buildParams.ToBlock) > f.maxL2BlockNumber && old(buildParams.RetryCount) > 0 && old(buildParams.LastSentCertificate) != nil && !f.allowToResizeRetryCert) ==> result1 != nil
 //@   ensures[input-unchanged] buildParams != nil ==> buildParams.FromBlock == old(buildParams.FromBlock) && buildParams.ToBlock == old(buildParams.ToBlock) && buildParams.Bridges == old(buildParams.Bridges) && buildParams.Claims == old(buildParams.Claims)
+
+// ---- size limit (C17): shrink from the end, one block at a time
+
+//@ func (f *baseFlow) limitCertSize
+//@   props C17
+//@   requires f != nil && fullCert != nil
+//@   requires fullCert.FromBlock <= fullCert.ToBlock && fullCert.ToBlock - fullCert.FromBlock + 1 < 9223372036854775808
+//@   ensures[no-error] result1 == nil && result0 != nil
+//@   ensures[first-block] result0.FromBlock == old(fullCert.FromBlock)
+//@   ensures[within] result0.FromBlock <= result0.ToBlock && result0.ToBlock <= old(fullCert.ToBlock)
+//@   ensures[size-or-single] f.cfg.MaxCertSize == 0 || result0.ToBlock == result0.FromBlock || estSize(seq(result0.Bridges), len(result0.Bridges), seq(result0.Claims), len(result0.Claims), result0.CertificateType) <= f.cfg.MaxCertSize
+//@   ensures[no-limit] f.cfg.MaxCertSize == 0 ==> result0 == fullCert
+//@   ensures[input-unchanged] fullCert.FromBlock == old(fullCert.FromBlock) && fullCert.ToBlock == old(fullCert.ToBlock) && fullCert.Bridges == old(fullCert.Bridges) && fullCert.Claims == old(fullCert.Claims)
+//@   loop 0 invariant currentCert != nil && currentCert.FromBlock == fullCert.FromBlock && currentCert.FromBlock <= currentCert.ToBlock && currentCert.ToBlock <= fullCert.ToBlock
+//@   loop 0 invariant currentCert == fullCert || fresh(currentCert)
+//@   loop 0 invariant f.cfg.MaxCertSize == 0 ==> currentCert == fullCert
+//@   loop 0 invariant fullCert.FromBlock == old(fullCert.FromBlock) && fullCert.ToBlock == old(fullCert.ToBlock) && fullCert.Bridges == old(fullCert.Bridges) && fullCert.Claims == old(fullCert.Claims)
+//@   loop 0 decreases currentCert.ToBlock - currentCert.FromBlock
